@@ -1842,12 +1842,20 @@ class Interp:
 
         @reg("list")
         def _list(it, a, k):
+            if a and hasattr(a[0], "deps"):
+                from .libmodels.nx_graph import AbsColl
+
+                return AbsColl(a[0].deps, "list")
             if a and hasattr(a[0], "pyvc_to_list"):
                 return a[0].pyvc_to_list(it)
             return list(it.iterate(a[0])) if a else []
 
         @reg("tuple")
         def _tuple(it, a, k):
+            if a and hasattr(a[0], "deps"):
+                from .libmodels.nx_graph import AbsColl
+
+                return AbsColl(a[0].deps, "tuple")
             return tuple(it.iterate(a[0])) if a else ()
 
         @reg("set")
